@@ -32,6 +32,7 @@ EXPLANATION = (
     'paths: bytes from the backend or the cache reach the decoder only through the failing edge of the comparison); handler discipline around every decrypt / '
     'verification site with exactly one registered absorbing handler; observation of every writer future and propagation out of the loader join. Rules C04.R1-R4.'
     ' Added with the seeded-defect rounds: every hash adapter hashes its whole argument, a failed command reaches the exit status, wait() results are observed.'
+    ' Round 6: restore never probes the target path, the stop flag of restore belongs to the run.'
 )
 NOT_DECIDED = 'that a corruption is always detected (collision resistance of the hash, AEAD authenticity are trusted); corruption experiments are not executed'
 TRUSTED = ['hash collision resistance', 'AEAD authenticity', 'CPython ast']
